@@ -126,6 +126,10 @@ func (s *Sorter) Reset() {
 		s.chunks = s.chunks[:0]
 	}
 	if s.cleanups != nil {
+		// remove spill files of the previous run, nobody else can after this
+		for _, f := range s.cleanups {
+			f()
+		}
 		s.cleanups = s.cleanups[:0]
 	}
 }
